@@ -103,6 +103,115 @@ func c10(c *core.Ctx) {
 		}
 	}
 
+	// copy-on-write of record content
+	rCow := c.Rule("C10.cow", "the byte-slice content of a record is never changed in place: getters hand the slice out to readers that use it without the record's lock, so a writer replaces it (new buffer, or append at the tail beyond every reader's length) and never stores through an index, copies into it, or re-appends into a truncated prefix of it", 1)
+	{
+		_, cst := p.StructOf(pkgTreasure, "Content")
+		sliceFields := map[*types.Var]bool{}
+		for _, f := range core.StructFields(cst) {
+			t := f.Type()
+			if pt, ok := t.(*types.Pointer); ok {
+				t = pt.Elem()
+			}
+			if _, ok := t.Underlying().(*types.Slice); ok {
+				sliceFields[f] = true
+			}
+		}
+		n := 0
+		for _, f := range p.FuncsIn(pkgTreasure) {
+			if f.Decl.Body == nil {
+				continue
+			}
+			info := f.Info()
+			var alias func(e ast.Expr, depth int) *types.Var
+			alias = func(e ast.Expr, depth int) *types.Var {
+				e = core.Unparen(e)
+				switch v := e.(type) {
+				case *ast.StarExpr:
+					return alias(v.X, depth)
+				case *ast.SelectorExpr:
+					if fv := core.FieldOf(info, v); fv != nil && sliceFields[fv] {
+						return fv
+					}
+				case *ast.SliceExpr:
+					return alias(v.X, depth)
+				case *ast.Ident:
+					if depth < 3 {
+						if def := localDef(info, f.Decl.Body, info.Uses[v]); def != nil {
+							return alias(def, depth+1)
+						}
+					}
+				}
+				return nil
+			}
+			touched := false
+			ast.Inspect(f.Decl.Body, func(x ast.Node) bool {
+				switch v := x.(type) {
+				case *ast.AssignStmt:
+					for _, lhs := range v.Lhs {
+						if ix, ok := core.Unparen(lhs).(*ast.IndexExpr); ok {
+							if fv := alias(ix.X, 0); fv != nil {
+								touched = true
+								rCow.Bad(f.Key+":"+fv.Name()+":index-store", v.Pos(), "an element of Content."+fv.Name()+" is overwritten in place: readers that obtained the slice from a getter read it without the record's lock and can see a value that was never committed")
+							}
+						}
+					}
+				case *ast.CallExpr:
+					id, ok := core.Unparen(v.Fun).(*ast.Ident)
+					if !ok {
+						return true
+					}
+					if _, isB := info.Uses[id].(*types.Builtin); !isB {
+						return true
+					}
+					switch id.Name {
+					case "copy":
+						if len(v.Args) == 2 {
+							if fv := alias(v.Args[0], 0); fv != nil {
+								touched = true
+								rCow.Bad(f.Key+":"+fv.Name()+":copy-into", v.Pos(), "bytes are copied into Content."+fv.Name()+" in place: lock-free readers of the slice can see a torn value")
+							}
+						}
+					case "append":
+						if len(v.Args) >= 1 {
+							cands := []ast.Expr{core.Unparen(v.Args[0])}
+							if id0, isId := cands[0].(*ast.Ident); isId {
+								// every definition of the local (it is typically re-assigned by the append itself)
+								obj := info.Uses[id0]
+								ast.Inspect(f.Decl.Body, func(y ast.Node) bool {
+									if as, isAs := y.(*ast.AssignStmt); isAs && len(as.Lhs) == len(as.Rhs) {
+										for i, l := range as.Lhs {
+											if li, isL := l.(*ast.Ident); isL && (info.Defs[li] == obj || info.Uses[li] == obj) {
+												cands = append(cands, core.Unparen(as.Rhs[i]))
+											}
+										}
+									}
+									return true
+								})
+							}
+							for _, a0 := range cands {
+								se, isSlice := a0.(*ast.SliceExpr)
+								if !isSlice || se.High == nil {
+									continue
+								}
+								if fv := alias(se.X, 0); fv != nil {
+									touched = true
+									rCow.Bad(f.Key+":"+fv.Name()+":append-into-prefix", v.Pos(), "append re-uses a truncated prefix of Content."+fv.Name()+" (in-place filter / delete): the kept elements are shifted inside the buffer that lock-free readers are decoding, they can return a set that was never committed (e.g. [1 3 3] from [1 2 3])")
+								}
+							}
+						}
+					}
+				}
+				return true
+			})
+			if touched {
+				n++
+				c.Touch(f)
+			}
+		}
+		rCow.Ok(pkgTreasure+":content-slices:scan", token0(), "all index stores, copy() and append() calls of the package scanned")
+	}
+
 	// record model: getters under t.mu; setters (known finding, aggregated)
 	rT := c.Rule("C10.record", "methods of the record type read the model and change flags only under t.mu (RLock), and write them under t.mu.Lock", 40)
 	{
